@@ -205,6 +205,17 @@ def rule_P2(ctx, F):
     bails = [bi for bi, t in un.calls() if "anyhow" in callee_name(t["callee"]) and ("format_err" in callee_name(t["callee"]) or "Error" in callee_name(t["callee"]))]
     ok = any(any(isinstance(c, tuple) and c[0] == "switchnot" and isinstance(tr, tuple) and set(tr) == {110, 114, 92} for c, tr in guards_at(un, b)) for b in bails)
     ctx.ob(ok, "unescape-other-is-error", un.loc, "any other escaped character reaches bail!: %s" % ok)
+    # every rejection happens inside the escape handling: the writer emits backslash-free text for ordinary paths and arbitrary
+    # sequences of the three escape pairs otherwise, so a reader that rejects by a test on the whole string (outside the
+    # `find('\\') == Some(..)` arm) refuses something the writer can print
+    outside = []
+    for b in bails:
+        gs = guards_at(un, b)
+        inside = any(isinstance(c, tuple) and c[0] == "switchval" and "find" in show(c) and tr == 1 for c, tr in gs)
+        if not inside:
+            outside.append(b)
+    ctx.ob(bool(bails) and not outside, "unescape-rejects-only-inside-an-escape", un.loc,
+           "%d error exit(s), %d of them not under the Some arm of find('\\')" % (len(bails), len(outside)))
     # the escape char searched is backslash
     f = [c for c in calls_of(un) if norm_path(c[1][1]).endswith("::find")]
     ctx.ob(len(f) == 1 and f[0][1][2][1] == ("const", None, 92), "unescape-finds-backslash", un.loc, "find('\\\\'): %s" % [show(x[1]) for x in f])
